@@ -105,8 +105,8 @@ impl Prop for C19Prop {
     fn streams(&self, tier: Tier) -> Vec<Stream> {
         let q = tier == Tier::Quick;
         vec![
-            Stream::random("cfg", if q { 60 } else { 1000 }, 200),
-            Stream::random("invalid", if q { 20 } else { 300 }, 200),
+            Stream::random("cfg", if q { 150 } else { 2000 }, 200),
+            Stream::random("invalid", if q { 40 } else { 500 }, 200),
         ]
     }
     fn generate(&self, stream: &str, t: &mut Tape) -> Option<Case> {
